@@ -31,7 +31,9 @@ type c07History struct {
 func c07Ev(k int, members string) string { return c01Event(k, T0+int64(k), members) }
 
 func c07Histories(tier string) []c07History {
-	ing := func(idx string, k int, m string) c07Step { return c07Step{Op: "ingest", Index: idx, Event: c07Ev(k, m)} }
+	ing := func(idx string, k int, m string) c07Step {
+		return c07Step{Op: "ingest", Index: idx, Event: c07Ev(k, m)}
+	}
 	fl, rot := c07Step{Op: "flush"}, c07Step{Op: "rotate"}
 	hs := []c07History{
 		{"H1 ingest,flush", false, []c07Step{ing("a", 0, `"d":"x","n":1`), fl}},
